@@ -25,6 +25,8 @@ UNIVERSE = {
     "lits": ["a", "b"], "grids": [["list", [1]], ["list", []]],
     "nums": [0, 1, 2, True], "words": ["", "a", "b"], "tags": [0, 1, 2, True], "labels": ["", "a", "b"], "scores": [0, 1, 2],
     "kids": [["Leaf", {}], ["Leaf", {"x": 1}]], "pairs": [["Leaf", {}], ["Leaf", {"x": 1}]],
+    "fkids": [["Leaf", {}], ["Leaf", {"x": 1}]],       # frozen elements (built as FLeaf: opts leaf_is_frozen)
+    "invs": [["Inv", {}], ["Inv", {"x": 1, "d": 9}]],  # elements with derived state that a keyword edit of x resets
     "units": [["Keyed", {"key": "a"}], ["Keyed", {"key": "b", "n": 1}], ["Keyed", {"key": "c"}]],
     "parts": [["Keyed", {"key": "a"}], ["Keyed", {"key": "b", "n": 1}]],
     "links": [["Keyed", {"key": "a"}], ["Keyed", {"key": "b", "n": 1}], ["Keyed", {"key": "c"}]],
@@ -71,9 +73,9 @@ def gen_ops(kind, K, ln, with_prep, small):
                 call("without", f"without:{tag}", x, **kw)
                 call("update", f"update:{tag}", x, U[0], **kw)
         if nested:
-            kwn = {"x": 3} if nested == "Leaf" else {"key": "k", "n": 3}
+            kwn = {"x": 3} if nested != "Keyed" else {"key": "k", "n": 3}
             call("with", "with:kw", **kwn)
-            fld = "x" if nested == "Leaf" else "n"
+            fld = "x" if nested != "Keyed" else "n"
             if ln and kind not in ("links",):
                 # the same object at several positions: later edits of one position must not show at the others
                 call("with", "with:alias_existing", ["elem", 0])
@@ -97,8 +99,8 @@ def gen_ops(kind, K, ln, with_prep, small):
             call("transform", "transform:key", k, FN("inc"))
             call("without", "without:key", k)
             if nested:
-                fld = "x" if nested == "Leaf" else "n"
-                kwn = {"x": 3} if nested == "Leaf" else {"key": "k", "n": 3}
+                fld = "x" if nested != "Keyed" else "n"
+                kwn = {"x": 3} if nested != "Keyed" else {"key": "k", "n": 3}
                 call("with", "with:kw", k, **kwn)
                 call("update", "update:kw", k, **{fld: 4})
                 call("transform", "transform:attrfn", k, **{fld: FN("inc")})
@@ -152,6 +154,10 @@ def item_conforms(kind, x, env):
         return isinstance(x, str)
     if kind in ("kids", "pairs"):
         return isinstance(x, env.Leaf)
+    if kind == "fkids":
+        return isinstance(x, env.FLeaf)
+    if kind == "invs":
+        return isinstance(x, env.ns["Inv"])
     return isinstance(x, env.Keyed)
 
 
@@ -180,8 +186,18 @@ def ref_apply(kind, env, content, op, with_prep):
 
     def build_from_kw(base=None):
         if base is None:
+            if nested == "Inv":
+                return env.ns["Inv"](**kw)
+            if nested == "Leaf" and kind == "fkids":
+                return env.FLeaf(**kw)
             return (env.Leaf if nested == "Leaf" else env.Keyed)(**kw)
         b = copy.deepcopy(base)
+        if kind == "fkids":
+            # frozen elements are evolved, not edited: a new element with the given attributes replaced
+            vals = {a: getattr(b, a) for a in ("x", "ys")}
+            for k, v in kw.items():
+                vals[k] = v(vals[k]) if callable(v) else v
+            return type(b)(**vals)
         for k, v in kw.items():
             if callable(v):
                 setattr(b, k, v(getattr(b, k)))
@@ -479,6 +495,10 @@ def main(run):
             variants.append(G.single(kind, "none", item_preparers=[K["name"]]))
         for rec in variants:
             tasks.append({"rec": rec, "max_len": (3 if kind in ("nums", "words", "scores", "tags", "labels") else 2) if quick else (4 if kind in ("nums", "words", "tags", "labels") else 3),
+                          "tier": run.tier})
+    for kind, opts in (("fkids", {"leaf_is_frozen": True}), ("invs", {})):
+        for dflt in ("none", "mut"):
+            tasks.append({"rec": {"name": f"C06_{kind}_{dflt}", "attrs": [{"kind": kind, "default": dflt}], "opts": dict(opts)}, "max_len": 2 if quick else 3,
                           "tier": run.tier})
     for rec in pmap(explore_kind, tasks):
         run.merge(rec)
